@@ -28,6 +28,13 @@ Theorem C04_plain_aggregates_empty_level (S : Scalar) eps2 (A : crs S) junk :
 Proof. exact (plain_aggregates_empty eps2 A junk). Qed.
 Print Assumptions C04_plain_aggregates_empty_level.
 
+(* the boolean oracle evaluated on the implementation's (count, id, strong_connection) is implied by
+   the specification: what the harness checks on the real code is the statement proved for the model *)
+Theorem C04_partition_oracle_complete (S : Scalar) eps2 (A : crs S) junk count id st :
+  plain_aggregates eps2 A junk = AggOk count id st -> partition_ok count id st = true.
+Proof. exact (partition_oracle_complete eps2 A junk count id st). Qed.
+Print Assumptions C04_partition_oracle_complete.
+
 (* the renumbering pass alone, for ANY valid intermediate state of the greedy pass *)
 Theorem C04_renumbering (n count : nat) (id : list Z) (st : flags) : 0 < count ->
   length id = n ->
@@ -90,6 +97,131 @@ Theorem C04_tentative_columns_orthogonal_Qc naggr (id : list Z) j1 j2 : j1 <> j2
                  mget (tentative_prolongation (S:=QcS) naggr id) i j2) (length id) = s0.
 Proof. exact (C04_tentative_columns_orthogonal QcS QcS_ring naggr id j1 j2). Qed.
 Print Assumptions C04_tentative_columns_orthogonal_Qc.
+
+(* ---------------------------------------------------------------- 2b. tentative prolongation WITH a near-null space,
+   relative to a QR oracle (amgcl/detail/qr.hpp is hard-wired to double: not modelled).  If the factors
+   the oracle returns for the aggregate of row k satisfy Q R = B_aggr (column c), then
+   (P_tent * B_coarse)[k][c] = B[k][c]: the supplied near-null-space vectors are reproduced exactly on
+   aggregated rows.  B_coarse = the R factors stacked (ns_apply / bnew_entry).
+   On the implementation this variant is TESTED (oracle o.tentative_ns in the double build), not tied
+   exactly. *)
+Section RingNS.
+Variable S : Scalar.
+Hypothesis Srt : Sring S.
+Variable qr : mat (S:=S) -> mat (S:=S) * mat (S:=S).
+Theorem C04_tentative_nullspace_reproduces (bs cols naggr : nat) (id : list Z) (B : mat (S:=S)) k c :
+  0 < cols -> k < length id -> (0 <= zget id k)%Z ->
+  let i := Nat.div (Z.to_nat (zget id k)) bs in
+  let mem := members bs id i in
+  let QR := qr (map (mrow B) mem) in
+  i < Nat.div naggr bs ->
+  (forall ii, ii < length mem ->
+     sumn (fun jj => mentry (fst QR) ii jj * mentry (snd QR) jj c) cols = mentry B (nth ii mem 0%nat) c) ->
+  let PB := tentative_prolongation_ns qr bs cols naggr id B in
+  ns_apply S cols (snd PB) (nth k (rows (fst PB)) []) c = mentry B k c.
+Proof. exact (tentative_ns_reproduces S Srt qr bs cols naggr id B k c). Qed.
+End RingNS.
+
+(* ---------------------------------------------------------------- 3. smoothed aggregation formula (field)
+   dense P = (I - omega D^-1 A_F) dense P_tent, row by row:
+     sa_formula omega A st Pt i j = sum_{k < n} sa_M i k * Pt[k][j],
+     sa_M i k  = delta_ik - omega * D_i^-1 * A_F[i][k],
+     A_F[i][k] = sum of the STRONG stored entries (i,k) for k <> i,  A_F[i][i] = D_i,
+     D_i       = a_ii + sum of the WEAK off-diagonal entries of row i (what the code lumps into [dia]).
+   Guards the code needs (sa_row_regular): D_i <> 0 (the code tests is_zero(dia) and then leaves the
+   off-diagonal part out), exactly one stored diagonal entry in row i, flags cover the row.
+   Holds for ANY flags [st] and ANY P_tent (so also for the near-null-space variant and for the
+   flags pointwise_aggregates produces). *)
+Section Field.
+Variable S : Scalar.
+Hypothesis Sft : Sfield S.
+Hypothesis Seqb : seqb_spec S.
+
+Theorem C04_sa_formula (omega : S) (A : crs S) (st : flags) (Pt : crs S) i j :
+  wf A = true -> ncols A = nrows A -> i < nrows A ->
+  sa_row_regular A st i = true ->
+  mget (sa_smooth omega A st Pt) i j = sa_formula omega A st Pt i j.
+Proof. exact (sa_formula_holds S Sft Seqb omega A st Pt i j). Qed.
+End Field.
+
+Theorem C04_sa_formula_Qc (omega : QcS) (A : crs QcS) (st : flags) (Pt : crs QcS) i j :
+  wf A = true -> ncols A = nrows A -> i < nrows A ->
+  sa_row_regular A st i = true ->
+  mget (sa_smooth omega A st Pt) i j = sa_formula omega A st Pt i j.
+Proof. exact (C04_sa_formula QcS QcS_field QcS_eqb omega A st Pt i j). Qed.
+Print Assumptions C04_sa_formula_Qc.
+
+(* omega as coded: relax * static_cast<scalar>(2.0/3), resp. relax * (static_cast<scalar>(4.0/3) / rho) *)
+Theorem C04_sa_transfer_is_smoothing (S : Scalar) (eps2 relax c23 : S) bs (A : crs S) junk P R :
+  sa_transfer eps2 relax c23 bs A junk = TrOk P R ->
+  exists count id st, pointwise_aggregates eps2 bs 0 A junk = AggOk count id st /\
+    P = sa_smooth (relax * c23) A st (tentative_prolongation count id) /\ R = transpose P.
+Proof. exact (sa_transfer_is_smoothing eps2 relax c23 bs A junk P R). Qed.
+Print Assumptions C04_sa_transfer_is_smoothing.
+
+(* ---------------------------------------------------------------- 4a. smoothed aggregation row sums (field)
+   struct_sym A: every stored entry (i,c,v) has a stored mirror entry (c,i,v) (symmetric matrices
+   without duplicate or one-sided explicit-zero entries).  A zero-row-sum row with a strong
+   neighbour (and the guards of the formula: D_i <> 0, one stored diagonal entry) is interpolated
+   with weights that sum to one -- no order axioms are needed: the strength test of the mirror entry
+   compares the same two ring elements. *)
+Section FieldRowSum.
+Variable S : Scalar.
+Hypothesis Sft : Sfield S.
+Hypothesis Seqb : seqb_spec S.
+Theorem C04_sa_row_sum_one (eps2 omega : S) (A : crs S) junk count id st i :
+  wf A = true -> ncols A = nrows A -> i < nrows A ->
+  plain_aggregates eps2 A junk = AggOk count id st ->
+  struct_sym A ->
+  row_sum (nth i (rows A) []) = s0 ->
+  has_strong (nth i st []) = true ->
+  sa_row_regular A st i = true ->
+  row_sum (nth i (rows (sa_smooth omega A st (tentative_prolongation count id))) []) = s1.
+Proof. exact (sa_row_sum_one S Sft Seqb eps2 omega A junk count id st i). Qed.
+End FieldRowSum.
+
+Theorem C04_sa_row_sum_one_Qc (eps2 omega : QcS) (A : crs QcS) junk count id st i :
+  wf A = true -> ncols A = nrows A -> i < nrows A ->
+  plain_aggregates eps2 A junk = AggOk count id st ->
+  struct_sym A ->
+  row_sum (nth i (rows A) []) = s0 ->
+  has_strong (nth i st []) = true ->
+  sa_row_regular A st i = true ->
+  row_sum (nth i (rows (sa_smooth omega A st (tentative_prolongation count id))) []) = s1.
+Proof. exact (C04_sa_row_sum_one QcS QcS_field QcS_eqb eps2 omega A junk count id st i). Qed.
+Print Assumptions C04_sa_row_sum_one_Qc.
+
+(* the diagonal of A_F in the header comment of smoothed_aggregation.hpp (weak entries SUBTRACTED,
+   as printed in Vanek et al. 1996) is not what the code computes (weak entries ADDED: row sums of A
+   are preserved); witness with one weak connection, omega = 2/3: P[0][0] = 5/7 = coded formula,
+   documented formula gives 17/27.  Documentation finding, see final report. *)
+Theorem C04_sa_documented_diagonal_refuted :
+  match pointwise_aggregates (qc 1 16) 1 0 sa_doc_A (repeat (qc 0 1) 3) with
+  | AggOk count id st =>
+      let Pt := tentative_prolongation (S:=QcS) count id in
+      let P := sa_smooth (qc 2 3) sa_doc_A st Pt in
+      sa_row_regular sa_doc_A st 0 = true /\
+      seqb (mget P 0 0) (sa_formula (qc 2 3) sa_doc_A st Pt 0 0) = true /\
+      seqb (mget P 0 0) (qc 5 7) = true /\
+      seqb (sa_formula_doc (qc 2 3) sa_doc_A st Pt 0 0) (qc 17 27) = true
+  | _ => False
+  end.
+Proof. exact sa_documented_diagonal_refuted. Qed.
+Print Assumptions C04_sa_documented_diagonal_refuted.
+
+(* R = transpose P for all three policies, by construction (any S) *)
+Theorem C04_restriction_is_transpose (S : Scalar) (eps2 relax c23 eps_strong eps_trunc : S) bs dt (A : crs S) junk junkf P R :
+  (aggregation_transfer eps2 bs A junk = TrOk P R -> R = transpose P) /\
+  (sa_transfer eps2 relax c23 bs A junk = TrOk P R -> R = transpose P) /\
+  (rs_transfer eps_strong eps_trunc dt A junkf = TrOk P R -> R = transpose P).
+Proof. exact (restriction_is_transpose eps2 relax c23 eps_strong eps_trunc bs dt A junk junkf P R). Qed.
+Print Assumptions C04_restriction_is_transpose.
+
+(* Ruge-Stuben reads no uninitialised memory any more (/repo 8cfa879): the result does not depend on [junk] *)
+Theorem C04_rs_transfer_junk_independent (S : Scalar) (eps_strong eps_trunc : S) dt (A : crs S) (j1 j2 : flags) :
+  rs_transfer eps_strong eps_trunc dt A j1 = rs_transfer eps_strong eps_trunc dt A j2.
+Proof. exact (rs_transfer_junk_independent eps_strong eps_trunc dt A j1 j2). Qed.
+Print Assumptions C04_rs_transfer_junk_independent.
 
 (* ---------------------------------------------------------------- 5. pointwise aggregates / lifting *)
 (* the part that holds by construction: the b unknowns of node ip get ids b*pw_id(ip)+k, and they are
@@ -160,3 +292,13 @@ Example C04_nonvacuous_renumbering :
                               [(1, qc (-1) 1); (2, qc 2 1)]]%nat in
   plain_aggregates (qc 1 16) A (repeat (qc 0 1) 3) = AggOk 1 [0; 0; 0]%Z [[false; true]; [true; false; true]; [true; false]].
 Proof. vm_compute. reflexivity. Qed.
+
+(* non-vacuity of the row-sum theorem: 1-D Neumann Laplacian on 3 points, every row qualifies *)
+Example C04_sa_row_sum_nonvacuous :
+  wf lap3 = true /\ ncols lap3 = nrows lap3 /\ struct_sym lap3 /\
+  match plain_aggregates (qc 1 16) lap3 (repeat (qc 0 1) 3) with
+  | AggOk count id st =>
+      forallb (fun i => is_zero (row_sum (nth i (rows lap3) [])) && has_strong (nth i st []) && sa_row_regular lap3 st i) [0;1;2]%nat = true
+  | _ => False
+  end.
+Proof. split; [reflexivity|]. split; [reflexivity|]. split; [exact lap3_struct_sym|]. vm_compute. reflexivity. Qed.
